@@ -57,6 +57,10 @@ func vfGuardMap(name string, m interface{}, mu interface{}) {}
 // vfLocksHeld returns the number of mutexes currently held (engine only).
 func vfLocksHeld() int { return 0 }
 
+// vfEmbedRoot tells the engine which directory on disk the harness's //go:embed
+// directive embeds (the engine cannot see embedded files); no-op natively.
+func vfEmbedRoot(dir string, pattern string) {}
+
 // vfSymbolic reports whether the harness runs inside the engine.
 func vfSymbolic() bool { return false }
 
